@@ -1,0 +1,57 @@
+//! Verification hooks (cargo feature `verif_hooks`, off by default).
+//!
+//! `Constraints::random_angles` draws from `rand::thread_rng()`, which no caller can seed.
+//! With this feature a test harness can install a thread-local seeded generator so that
+//! every outcome of the sampler (and of the RRT planner that uses it) can be replayed.
+//! When no seed is installed the sampler keeps using the thread generator.
+
+use rand::rngs::StdRng;
+use rand::{RngCore, SeedableRng};
+use std::cell::RefCell;
+
+thread_local! {
+    static SEEDED: RefCell<Option<StdRng>> = RefCell::new(None);
+}
+
+/// Install a seeded generator for the sampler on the current thread.
+pub fn seed_rng(seed: u64) {
+    SEEDED.with(|s| *s.borrow_mut() = Some(StdRng::seed_from_u64(seed)));
+}
+
+/// Remove the seeded generator of the current thread (back to `thread_rng`).
+pub fn clear_rng() {
+    SEEDED.with(|s| *s.borrow_mut() = None);
+}
+
+/// Generator handed to the sampler: the seeded thread-local one when installed,
+/// otherwise the fallback it wraps.
+pub struct HookRng<'a, R: RngCore> {
+    fallback: &'a mut R,
+}
+
+impl<'a, R: RngCore> HookRng<'a, R> {
+    pub fn around(fallback: &'a mut R) -> Self {
+        HookRng { fallback }
+    }
+}
+
+impl<'a, R: RngCore> RngCore for HookRng<'a, R> {
+    fn next_u32(&mut self) -> u32 {
+        let v = SEEDED.with(|s| s.borrow_mut().as_mut().map(|r| r.next_u32()));
+        v.unwrap_or_else(|| self.fallback.next_u32())
+    }
+
+    fn next_u64(&mut self) -> u64 {
+        let v = SEEDED.with(|s| s.borrow_mut().as_mut().map(|r| r.next_u64()));
+        v.unwrap_or_else(|| self.fallback.next_u64())
+    }
+
+    fn fill_bytes(&mut self, dest: &mut [u8]) {
+        let done = SEEDED.with(|s| {
+            s.borrow_mut().as_mut().map(|r| r.fill_bytes(dest)).is_some()
+        });
+        if !done {
+            self.fallback.fill_bytes(dest)
+        }
+    }
+}
